@@ -23,6 +23,9 @@ use tokio::sync::mpsc::Sender;
 use tracing::{debug, warn};
 use worterbuch_common::{KeySegment, PStateEvent, RegularKeySegment, StateEvent, SubscriptionId};
 
+#[cfg(feature = "verif")]
+mod verif;
+
 type Subs = Vec<Subscriber>;
 type Tree = HashMap<KeySegment, Node>;
 
